@@ -5,6 +5,7 @@ use refmodel::trivia::*;
 /// ws = *wschar: never fails, returns the consumed prefix, which is ASCII (M6) and maximal
 #[kani::proof]
 #[kani::unwind(6)]
+#[kani::stub(core::str::from_utf8, stub_from_utf8)]
 pub fn c01_ws_u4() {
     let (buf, len) = any_utf8::<4>();
     let s = &buf[..len];
@@ -30,6 +31,7 @@ lang_kernel!(c01_ws_comment_newline_a4, any_ascii, 4, 6, ws_comment_newline, r_w
 
 #[kani::proof]
 #[kani::unwind(6)]
+#[kani::stub(core::str::from_utf8, stub_from_utf8)]
 pub fn c01_line_trailing_a4() {
     let (buf, len) = any_ascii::<4>();
     let s = &buf[..len];
